@@ -1163,7 +1163,7 @@ fn resolve_sections_for_object<'data, P: Platform>(
     for (input_section_index, input_section) in obj.common.object.enumerate_sections() {
         let section_size = obj.common.object.section_size(input_section).unwrap_or(0);
         if input_section.is_executable() {
-            executable_bytes += section_size;
+            executable_bytes = executable_bytes.saturating_add(section_size);
         }
         let (slot, part_id) = resolve_section(
             input_section_index,
